@@ -15,6 +15,7 @@ import (
 
 	"github.com/ErdemOzgen/blackdagger/internal/dag"
 	"github.com/ErdemOzgen/blackdagger/internal/dag/scheduler"
+	"github.com/ErdemOzgen/blackdagger/internal/persistence/local"
 	"github.com/ErdemOzgen/blackdagger/internal/persistence/model"
 	"github.com/ErdemOzgen/blackdagger/verifharness/agentkit"
 	"github.com/ErdemOzgen/blackdagger/verifharness/crashkit"
@@ -379,6 +380,27 @@ func judgeFile(file, oldT, newT string) string {
 	return ""
 }
 
+// followUpSaves saves a short and then a long valid text through a fresh store
+// over the post-crash directory, restores the file afterwards.
+func followUpSaves(dags, file string) string {
+	keep, err := os.ReadFile(file)
+	if err != nil {
+		return ""
+	}
+	defer os.WriteFile(file, keep, 0o644)
+	ds := local.NewDAGStore(&local.NewDAGStoreArgs{Dir: dags})
+	for _, t := range []string{"steps:\n  - name: z\n    command: \"true\"\n", text(1) + "# " + strings.Repeat("tail ", 400) + "\n"} {
+		if err := ds.UpdateSpec("victim", []byte(t)); err != nil {
+			return fmt.Sprintf("a later save of a valid text fails: %v", err)
+		}
+		b, _ := os.ReadFile(file)
+		if string(b) != t {
+			return fmt.Sprintf("a later save of %d bytes left %d bytes %q in the definition — not the text that was saved", len(t), len(b), trunc(string(b)))
+		}
+	}
+	return ""
+}
+
 func checkCrash(t rep.Fataler, c CrashCase) {
 	oldT, newT := text(c.Old), text(c.New)
 	if !valid(oldT) || !valid(newT) || oldT == newT {
@@ -424,6 +446,13 @@ func checkCrash(t rep.Fataler, c CrashCase) {
 			}
 		}
 		rep.EvalCounted(true, "crash-point:"+call.Name)
+		// life goes on after the crash: a later save (of a shorter and of a
+		// longer text) on the surviving directory is all-or-nothing as well —
+		// whatever the killed save left behind must not leak into it.
+		if msg := followUpSaves(dags, file); msg != "" {
+			cleanup()
+			rep.Fail(t, ID, "crash", cc, map[string]any{"call": call, "of": K}, "after a save killed at file-system call %d of %d (%s): %s", k, K, call.Name, msg)
+		}
 		// torn write: a write to the definition file itself that was interrupted
 		// after p bytes (the states between this crash point and the next)
 		if call.Name == "write" && strings.HasPrefix(call.Detail, file+" ") {
